@@ -6,5 +6,5 @@ if [ -n "$(git status --porcelain)" ]; then echo "repo dirty"; exit 2; fi
 git apply "$PATCH" || { echo "patch does not apply"; exit 2; }
 /verif/check.sh "$PROP" quick > /tmp/try_seed.out 2>&1; rc=$?
 git checkout -- . ; git clean -fdq
-grep -E "^(FINDING|VIOLATION|KNOWN|OK)" /tmp/try_seed.out | cut -c1-400
+grep -a -E "^(FINDING|VIOLATION|KNOWN|OK)" /tmp/try_seed.out | cut -c1-400
 echo "exit=$rc"
